@@ -40,7 +40,7 @@ if not os.path.realpath(saml2_tophat.__file__).startswith(os.path.realpath(os.pa
 import xmlsec_model  # noqa: E402
 
 KEYNAMES = ['kIdp1', 'kIdp1b', 'kIdp2', 'kSp', 'kSpEnc1', 'kSpEnc2', 'kAttacker', 'kMd',
-            'kA', 'kB', 'kC']
+            'kA', 'kB', 'kC', 'kA2', 'kB2', 'kC2']
 KEYDIR = os.path.join(WORK, 'keys')
 
 
